@@ -378,7 +378,7 @@ class ReactionQueryReader(object):
         assert tree[1][0] == 'GroupName'
         assert tree[2][0] == 'LabelMapping'
         labelmapping = self.LabelMapping(tree[2][1:])
-        if tree[1][1] not in self.RINGgroups:
+        if self.RINGgroups is None or tree[1][1] not in self.RINGgroups:
             raise RINGReaderError("ReactantGroup: Unrecognized group name:'"
                                   + tree[1][1] + "'")
 
@@ -412,6 +412,9 @@ class ReactionQueryReader(object):
         assert tree[1][0] == 'ReactantName'
         assert tree[2][0] == 'LabelMapping'
         labelmapping = self.LabelMapping(tree[2][1:])
+        if tree[1][1] not in reactionquery.reactantquery:
+            raise RINGReaderError("ReadDuplicates: Unrecognized reactant name:'"
+                                  + tree[1][1] + "'")
         if len(labelmapping) != len(reactionquery.reactantquery[tree[1][1]].
                                     atom_names):
             raise RINGReaderError('ReadDuplicates: Labelmapping length',
@@ -424,7 +427,7 @@ class ReactionQueryReader(object):
                               atom_names)):
             try:
                 reactionquery.reactantquery[tree[0][1]].atom_names[i] = \
-                    labelmapping[reactionquery.reactantquery[tree[0][0]].
+                    labelmapping[reactionquery.reactantquery[tree[0][1]].
                                  atom_names[i]]
             except KeyError:
                 s = 'Unrecognized label '
@@ -448,9 +451,9 @@ class ReactionQueryReader(object):
             self.electronbalance += [0]*len(molquery.atom_names)
             self.atom_belonging_mol += [molquery.name]*len(molquery.atom_names)
         elif tree[0][0] == 'ReactantGroup':
-            self.ReadReactantGroup(tree[1][1:], reactionquery)
+            self.ReadReactantGroup(tree[0][1:], reactionquery)
         elif tree[0][0] == 'Duplicates':
-            self.ReadDuplicates(tree[1][1:], reactionquery)
+            self.ReadDuplicates(tree[0][1:], reactionquery)
         if len(tree) == 2:
             self.ReadReactants(tree[1][1:], reactionquery)
 
